@@ -304,7 +304,9 @@ pub fn interpreter_accepts(pool: &Pool, case: &Case, j: usize, script_sig: &Scri
 
 /// Check what `update_input_with_descriptor` recorded in `inp` against the descriptor of input
 /// `j` as the harness knows it.  `fresh`: the input carried nothing but utxo data before.
-pub fn check_update(pool: &Pool, case: &Case, j: usize, inp: &psbt::Input, fresh: bool) -> Vec<String> {
+pub fn check_update(pool: &Pool, case: &Case, j: usize, inp: &psbt::Input, fresh: bool, alt: bool) -> Vec<String> {
+    // the origin the (last) descriptor states for a key
+    let want_origin = |k: &super::gen::KeyInfo| if alt { (k.alt_fp, k.alt_path.clone()) } else { (k.fp, k.path.clone()) };
     let m = &case.inputs[j];
     let mut bad = Vec::new();
     let spk = m.spk.as_bytes();
@@ -362,8 +364,9 @@ pub fn check_update(pool: &Pool, case: &Case, j: usize, inp: &psbt::Input, fresh
             match inp.bip32_derivation.get(&k.pk) {
                 None => bad.push(format!("bip32_derivation lacks the descriptor key {}", k.pk)),
                 Some((fp, path)) => {
-                    if *fp != k.fp || *path != k.path {
-                        bad.push(format!("bip32_derivation of {}: recorded [{}]/{} expected [{}]/{}", k.pk, fp, path, k.fp, k.path));
+                    let (wfp, wpath) = want_origin(k);
+                    if *fp != wfp || *path != wpath {
+                        bad.push(format!("bip32_derivation of {}: recorded [{}]/{} but the descriptor of this update says [{}]/{}", k.pk, fp, path, wfp, wpath));
                     }
                 }
             }
@@ -427,8 +430,9 @@ pub fn check_update(pool: &Pool, case: &Case, j: usize, inp: &psbt::Input, fresh
                     if got != want {
                         bad.push(format!("tap_key_origins of key #{}: {} leaf hashes recorded, {} expected", i, lhs.len(), want.len()));
                     }
-                    if *fp != k.fp || *path != k.path {
-                        bad.push(format!("tap_key_origins of key #{}: recorded [{}]/{} expected [{}]/{}", i, fp, path, k.fp, k.path));
+                    let (wfp, wpath) = want_origin(k);
+                    if *fp != wfp || *path != wpath {
+                        bad.push(format!("tap_key_origins of key #{}: recorded [{}]/{} but the descriptor of this update says [{}]/{}", i, fp, path, wfp, wpath));
                     }
                 }
             }
@@ -441,4 +445,91 @@ pub fn check_update(pool: &Pool, case: &Case, j: usize, inp: &psbt::Input, fresh
         }
     }
     bad
+}
+
+/// Key origins recorded in a PSBT OUTPUT by update_output_with_descriptor, against the
+/// descriptor of input `j` (original or alias origins).
+pub fn check_output_origins(pool: &Pool, case: &Case, j: usize, out: &psbt::Output, alt: bool) -> Vec<String> {
+    let m = &case.inputs[j];
+    let mut bad = Vec::new();
+    for (i, ki) in m.keys.iter().enumerate() {
+        let k = &pool.keys[*ki];
+        let (wfp, wpath) = if alt { (k.alt_fp, k.alt_path.clone()) } else { (k.fp, k.path.clone()) };
+        if let Some(tap) = &m.tap {
+            match out.tap_key_origins.get(&k.xonly()) {
+                None => bad.push(format!("output tap_key_origins lacks key #{}", i)),
+                Some((lhs, (fp, path))) => {
+                    let mut want: Vec<TapLeafHash> = tap.leaves.iter().filter(|l| l.keys.contains(&i)).map(|l| l.leaf_hash).collect();
+                    want.sort();
+                    want.dedup();
+                    let mut got = lhs.clone();
+                    got.sort();
+                    if got != want {
+                        bad.push(format!("output tap_key_origins of key #{}: {} leaf hashes recorded, {} expected", i, lhs.len(), want.len()));
+                    }
+                    if *fp != wfp || *path != wpath {
+                        bad.push(format!("output tap_key_origins of key #{}: recorded [{}]/{} but the descriptor of this update says [{}]/{}", i, fp, path, wfp, wpath));
+                    }
+                }
+            }
+        } else {
+            match out.bip32_derivation.get(&k.pk) {
+                Some((fp, path)) if *fp == wfp && *path == wpath => {}
+                other => bad.push(format!("output bip32_derivation of key #{}: {:?}, the descriptor of this update says [{}]/{}", i, other, wfp, wpath)),
+            }
+        }
+    }
+    bad
+}
+
+/// Non-malleability proxy for a (non-malleable) satisfaction of a miniscript-carrying output:
+/// is there a key whose valid signature is in the witness although the spending condition,
+/// with the time locks of THIS transaction and the preimages in the witness, holds without it?
+/// (A third party can then replace that signature by the empty vector.)
+pub fn unneeded_signature(pool: &Pool, case: &Case, j: usize, script_sig: &ScriptBuf, witness: &Witness) -> Option<usize> {
+    let m = &case.inputs[j];
+    let items: Vec<Vec<u8>> = match m.outer {
+        Outer::Wsh | Outer::ShWsh => {
+            let w: Vec<Vec<u8>> = witness.iter().map(|x| x.to_vec()).collect();
+            if w.is_empty() {
+                return None;
+            }
+            w[..w.len() - 1].to_vec()
+        }
+        Outer::Sh => {
+            let p = pushes(script_sig).ok()?;
+            if p.is_empty() {
+                return None;
+            }
+            p[..p.len() - 1].to_vec()
+        }
+        _ => return None,
+    };
+    let msg = m.ecdsa_msg?;
+    let version = case.tx.version.0;
+    let lock_time = case.tx.lock_time.to_consensus_u32();
+    let seq = case.tx.input[j].sequence.0;
+    let signed: Vec<usize> = (0..m.keys.len()).filter(|i| items.iter().any(|it| ecdsa_ok(pool, &msg, &pool.keys[m.keys[*i]].pk, it))).collect();
+    fn ev(p: &Pol, have: &dyn Fn(usize) -> bool, hash: &dyn Fn(usize) -> bool, version: i32, lock_time: u32, seq: u32) -> bool {
+        match p {
+            Pol::Key(i) => have(*i),
+            Pol::Older(n) => older_ok(version, seq, *n),
+            Pol::After(n) => after_ok(lock_time, seq, *n),
+            Pol::Hash(k) => hash(*k),
+            Pol::And(v) => v.iter().all(|x| ev(x, have, hash, version, lock_time, seq)),
+            Pol::Or(v) => v.iter().any(|x| ev(x, have, hash, version, lock_time, seq)),
+            Pol::Thresh(k, v) => v.iter().filter(|x| ev(x, have, hash, version, lock_time, seq)).count() >= *k,
+        }
+    }
+    let hash = |kind: usize| {
+        let target = hash_of(kind, &pool.preimages[kind]);
+        items.iter().any(|it| it.len() == 32 && hash_of(kind, it) == target)
+    };
+    for drop in &signed {
+        let have = |i: usize| signed.contains(&i) && i != *drop;
+        if ev(&m.pol, &have, &hash, version, lock_time, seq) {
+            return Some(*drop);
+        }
+    }
+    None
 }
